@@ -377,7 +377,7 @@ func checkC06(c *Ctx) {
 		}
 	})
 	// whole files of the corpus: clone, print, disjointness
-	files := corpus(c, map[bool]int{true: 12, false: 300}[c.Quick()])
+	files := corpus(c, map[bool]int{true: 32, false: 300}[c.Quick()])
 	whole := &ndjson{}
 	for _, f := range files {
 		f := f
@@ -397,6 +397,12 @@ func checkC06(c *Ctx) {
 		for _, rec := range c06Record(c, -1, build, false) {
 			whole.Add(rec)
 			c.Eval("clone|"+f.Path, true)
+		}
+		if len(f.Src) < 8000 { // ... and with every decoration point and both spaces of every node filled
+			for _, rec := range c06Record(c, -1, build, true) {
+				whole.Add(rec)
+				c.Eval("clone|filled|"+f.Path, true)
+			}
 		}
 	}
 	// a file decorated with import resolution: identifiers that carry a package path
